@@ -20,74 +20,138 @@ def _rename(text: str, mapping: Dict[str, str]) -> str:
 
 
 # ------------------------------------------------------------------- SIB-ADD
-def _same_parent_cond(ctx: Ctx, f: Func) -> Optional[ast.AST]:
-    """Condition of the `Same parent not allowed` refusal."""
+def _same_parent_refusal(ctx: Ctx, f: Func):
+    """(raise statement, atom `<src>._parent is <x>`, all path conditions) of the
+    refusal that rejects adding a node below its own parent."""
+    from ..pat import match
+    from .util import path_conds, raised_class
+
     for n in iter_own(f.node):
-        if isinstance(n, ast.If) and "._tree is self._tree" in norm(n.test):
-            for st in n.body:
-                if isinstance(st, ast.If) and any(isinstance(x, ast.Raise) and "UniqueConstraintError" in norm(x) for y in st.body for x in ast.walk(y)):
-                    return st.test
+        if isinstance(n, ast.Raise) and raised_class(n) == "UniqueConstraintError":
+            pcs = path_conds(ctx, f, n)
+            for e, pol in pcs:
+                if pol and (match("$$s._parent is $$x", e) is not None or match("$$s.parent is $$x", e) is not None or match("$$x is $$s._parent", e) is not None
+                            or match("$$s._parent == $$x", e) is not None or match("$$s.parent == $$x", e) is not None):
+                    return n, e, pcs
     return None
+
+
+def _direct_operand(e: ast.AST, name: str) -> bool:
+    """`name` itself (not an attribute of it) is compared / type-tested in e."""
+    if isinstance(e, ast.Compare):
+        return any(isinstance(x, ast.Name) and x.id == name for x in [e.left] + list(e.comparators))
+    if isinstance(e, ast.Call) and isinstance(e.func, ast.Name) and e.func.id in ("isinstance", "callable", "bool"):
+        return bool(e.args) and isinstance(e.args[0], ast.Name) and e.args[0].id == name
+    if isinstance(e, ast.BoolOp):
+        return any(_direct_operand(v, name) for v in e.values)
+    return isinstance(e, ast.Name) and e.id == name
 
 
 def _before_table(ctx: Ctx, f: Func) -> Dict[str, str]:
     """The dispatch on `before` that links the new node: case -> canonical
-    action (locals abstracted: L = the child list, node = the new node)."""
-    from ..pat import find, has, match, one
+    action.  Cases are read off the path conditions of every statement that
+    puts the new node into self's child list (L = that list)."""
+    from ..pat import find, match
+    from .util import path_conds
 
-    chain = None
+    def is_L(e: ast.AST) -> bool:
+        if match("self._children", e) is not None:
+            return True
+        if isinstance(e, ast.Name):
+            sc = ctx.env.scope(f)
+            return any(b.kind == "val" and b.expr is not None and match("self._children", b.expr) is not None for b in sc.bindings.get(e.id, []))
+        return False
+
+    acts: List[Tuple[ast.stmt, str]] = []
     for n in iter_own(f.node):
-        if isinstance(n, ast.If):
-            e = match("$L is None", n.test)
-            if e is not None and has("self._children = [$node]", n.body):
-                chain = _if_chain(n)
-                L = e["$L"]
-                node = one("self._children = [$node]", n.body)[1]["$node"]
-    if chain is None:
+        if not isinstance(n, (ast.Assign, ast.Expr)):
+            continue
+        e = match("self._children = [$node]", n)
+        if e is not None:
+            acts.append((n, "self._children = [node]"))
+            continue
+        e = match("$$L.insert($$i, $node)", n)
+        if e is not None and is_L(e["$$L"]):
+            i = e["$$i"]
+            if match("0", i) is not None:
+                acts.append((n, "L.insert(0, node)"))
+            elif match("before", i) is not None:
+                acts.append((n, "L.insert(before, node)"))
+            else:
+                iv = i
+                if isinstance(i, ast.Name):
+                    sc = ctx.env.scope(f)
+                    bs = [b for b in sc.bindings.get(i.id, []) if b.kind == "val" and b.expr is not None]
+                    if len(bs) == 1:
+                        iv = bs[0].expr
+                good = (m := match("_index_of($$L, before)", iv)) is not None and is_L(m["$$L"])
+                eq = (m := match("$$L.index(before)", iv)) is not None and is_L(m["$$L"])
+                acts.append((n, "idx = position of before in L; L.insert(idx, node)" if good else ("idx = L.index(before) [==]; L.insert(idx, node)" if eq else f"L.insert({norm(i)}, node)")))
+            continue
+        e = match("$$L.append($node)", n)
+        if e is not None and is_L(e["$$L"]):
+            acts.append((n, "L.append(node)"))
+    if not acts:
         raise AnalysisError(f"{f.qualname}: position dispatch not recognised")
-    B = {"$L": L, "$node": node}
     table: Dict[str, str] = {}
-    for test, body in chain:
-        key = "else" if test is None else _rename(norm(test), {L: "L"})
-        stm = [st for st in body if not isinstance(st, (ast.Assert, ast.If))]
-        act = "?"
-        if len(stm) == 1 and match("self._children = [$node]", stm[0], B) is not None:
-            act = "self._children = [node]"
-        elif len(stm) == 1 and match("$L.insert(0, $node)", stm[0], B) is not None:
-            act = "L.insert(0, node)"
-        elif len(stm) == 1 and match("$L.insert(before, $node)", stm[0], B) is not None:
-            act = "L.insert(before, node)"
-        elif len(stm) == 1 and match("$L.append($node)", stm[0], B) is not None:
-            act = "L.append(node)"
-        elif len(stm) == 2:
-            e = match("$i = _index_of($L, before)", stm[0], B) or match("$i = $L.index(before)", stm[0], B)
-            if e is not None and match("$L.insert($i, $node)", stm[1], e) is not None:
-                act = "idx = position of before in L; L.insert(idx, node)"
-        table[key] = act
-    if has("if before is True:\n    before = 0", f.node):
-        table.setdefault("before is True", "L.insert(0, node)")
+    for st, act in acts:
+        pcs = path_conds(ctx, f, st)
+        pos = []
+        for e, pol in pcs:
+            if not pol:
+                continue
+            m = match("$$L is None", e)
+            if m is not None and is_L(m["$$L"]):
+                pos.append("L is None")
+            elif match("before is True", e) is not None:
+                pos.append("before is True")
+            elif match("isinstance(before, int)", e) is not None or match("isinstance(before, (int,))", e) is not None:
+                pos.append("isinstance(before, int)")
+            elif match("before", e) is not None or match("isinstance(before, Node)", e) is not None:
+                pos.append("before")
+            elif _direct_operand(e, "before"):
+                pos.append(norm(e))
+        key = pos[0] if len(pos) == 1 else ("else" if not pos else " and ".join(sorted(pos)))
+        if key in table and table[key] != act:
+            table[key] = table[key] + " | " + act
+        else:
+            table[key] = act
+    # `before is True` may be folded into the int case by rebinding before = 0 first
+    for n, _e in find("before = 0", f.node):
+        if any(pol and match("before is True", e) is not None for e, pol in path_conds(ctx, f, n)):
+            table.setdefault("before is True", "L.insert(0, node)")
     return table
 
 
 @rule("SIB-ADD", ["C03", "C04", "C05", "C07"], floor=8, section="3.7")
 def sib_add(ctx: Ctx) -> List[Ob]:
     """Node.add_child and TypedNode.add_child agree on the same-parent refusal and realise the documented `before` dispatch (None->append, True->0, int->insert, node->insert at its position)"""
+    from ..pat import find as _find, match as _match
+    from .util import path_conds
+
     obs: List[Ob] = []
     m = ctx.model
     fa, fb = m.func("Node.add_child"), m.func("TypedNode.add_child")
-    ca, cb = _same_parent_cond(ctx, fa), _same_parent_cond(ctx, fb)
-    if ca is None or cb is None:
+    ra, rb = _same_parent_refusal(ctx, fa), _same_parent_refusal(ctx, fb)
+    if ra is None or rb is None:
         raise AnalysisError("add_child: same-parent refusal not found")
-    for f, c in ((fa, ca), (fb, cb)):
-        t = norm(c)
-        ok = t.endswith("._parent is self") or t.endswith(".parent is self")
-        obs.append(ctx.ob("SIB-ADD", ["C03", "C05", "C07"], f, f"same-parent refusal: {t}", c, ok,
-                          "" if ok else "the copy becomes a child of `self`, so the refusal must test `source._parent is self`; "
+    shapes = []
+    for f, (st, atom, pcs) in ((fa, ra), (fb, rb)):
+        t = norm(atom)
+        ok = _match("$$s._parent is self", atom) is not None or _match("$$s.parent is self", atom) is not None
+        obs.append(ctx.ob("SIB-ADD", ["C03", "C05", "C07"], f, "same-parent refusal tests `<source>._parent is self`", atom, ok,
+                          "" if ok else f"`{t}`: the copy becomes a child of `self`, so the refusal must test `source._parent is self`; "
                           "`is self._parent` refuses a legal add below a sibling (load() of a clone stored below a sibling of its first "
                           "occurrence fails) and misses the real conflict"))
-    ok = norm(ca) == norm(cb)
-    obs.append(ctx.ob("SIB-ADD", ["C03"], fa, "both add_child implementations refuse the same condition", ca, ok,
-                      "" if ok else f"Node: `{norm(ca)}` vs TypedNode: `{norm(cb)}`"))
+        # the other conditions the refusal depends on, with the source variable abstracted
+        src = (_match("$$s._parent is $$x", atom) or _match("$$s.parent is $$x", atom) or {}).get("$$s")
+        srct = norm(src) if src is not None else "?"
+        rest = sorted(("" if pol else "not ") + _rename(norm(e), {srct: "SRC"}) for e, pol in pcs
+                      if e is not atom and any(isinstance(x, ast.Name) and x.id == srct for x in ast.walk(e)))
+        shapes.append(rest)
+    ok = shapes[0] == shapes[1]
+    obs.append(ctx.ob("SIB-ADD", ["C03"], fa, "both add_child implementations refuse the same condition", ra[1], ok,
+                      "" if ok else f"Node: `{shapes[0]}` vs TypedNode: `{shapes[1]}`"))
     want = {
         "L is None": "self._children = [node]",
         "before is True": "L.insert(0, node)",
@@ -103,26 +167,20 @@ def sib_add(ctx: Ctx) -> List[Ob]:
             obs.append(ctx.ob("SIB-ADD", ["C04"], f, f"position `{case}` -> {act}", None, ok,
                               "" if ok else f"got `{got}`: the new node does not land at the documented place"))
         # `False` is an int: it must be normalised to "append" before the int case
-        from ..pat import has as _has, find as _find
-
-        ok = _has("if before is False:\n    before = None", f.node) or any(
-            isinstance(n_, ast.If) and norm(n_.test) == "before is False" and any(norm(x) == "before = None" for x in n_.body) for n_ in ast.walk(f.node))
+        ok = any(any(pol and _match("before is False", e) is not None for e, pol in path_conds(ctx, f, n)) for n, _e in _find("before = None", f.node))
         obs.append(ctx.ob("SIB-ADD", ["C04"], f, "position `before is False` -> append (False is normalised before the int case)", None, ok,
                           "" if ok else "isinstance(False, int) is true: before=False is inserted at index 0 although it is documented to append"))
         # whole-tree argument: the top nodes are reversed only when they are inserted at a fixed index
-        revs = _find("$t.reverse()", f.node)
-        for rn, _e in revs:
-            g_ = ctx.model.parent_of(ctx.model.parent_of(rn))
-            t_ = norm(g_.test) if isinstance(g_, ast.If) else "?"
-            ok = isinstance(g_, ast.If) and "Node" not in t_ and "isinstance(before, int)" in t_.replace("(int,)", "int")
+        for rn, _e in _find("$$t.reverse()", f.node):
+            pcs = path_conds(ctx, f, rn)
+            texts = [("" if pol else "not ") + norm(e) for e, pol in pcs if any(isinstance(x, ast.Name) and x.id == "before" for x in ast.walk(e))]
+            ok = any(pol and (_match("isinstance(before, int)", e) is not None or _match("isinstance(before, (int,))", e) is not None) for e, pol in pcs) and not any(
+                pol and "Node" in norm(e) for e, pol in pcs)
             obs.append(ctx.ob("SIB-ADD", ["C07", "C04"], f, "add_child(tree, before=...): the top nodes are reversed only for a fixed index position", rn, ok,
-                              "" if ok else f"`{t_}`: inserting every node before the same *node* already keeps their order; reversing first "
+                              "" if ok else f"`{texts}`: inserting every node before the same *node* already keeps their order; reversing first "
                               "adds them in reverse order (and before=False must not count as an index)"))
         extra = set(tb) - set(want)
         obs.append(ctx.ob("SIB-ADD", ["C04"], f, "no undocumented position case", None, not extra, "" if not extra else f"extra cases {sorted(extra)}"))
-        # order of the cases: True before int (True is an int), int before node truthiness
-        keys = [k for k in tb if k in want]
-        seq = [k for k in ("L is None", "before is True", "isinstance(before, int)", "before", "else") if k in keys]
     return obs
 
 
@@ -130,86 +188,125 @@ def sib_add(ctx: Ctx) -> List[Ob]:
 VERDICTS = ["falsy", "true", "select", "skip_keep_self", "skip", "stop"]
 
 
-def _verdict_branches(ctx: Ctx, f: Func, loop: ast.For) -> Dict[str, List[ast.stmt]]:
-    chain = None
-    for st in loop.body:
-        if isinstance(st, ast.If) and "res" in norm(st.test):
-            chain = _if_chain(st)
-    if chain is None:
-        raise AnalysisError(f"{f.qualname}: verdict chain not recognised")
-    out: Dict[str, List[ast.stmt]] = {}
-    for test, body in chain:
-        if test is None:
-            continue
-        t = norm(test)
-        if t in ("res in (None, False)", "res in (False, None)", "res is None or res is False", "not res"):
-            out["falsy"] = body
-        elif t == "res is True":
-            out["true"] = body
-        elif t == "isinstance(res, SelectBranch)":
-            out["select"] = body
-        elif t == "isinstance(res, StopTraversal)":
-            out["stop"] = body
-        elif t == "isinstance(res, SkipBranch)":
-            inner = [s for s in body if isinstance(s, ast.If) and "and_self" in norm(s.test)]
-            if len(inner) == 1 and norm(inner[0].test) == "res.and_self is False":
-                out["skip_keep_self"] = inner[0].body
-                out["skip"] = inner[0].orelse
+def _verdicts_of(ctx: Ctx, f: Func, node: ast.AST, resv: str) -> Tuple[Set[str], List[Tuple[ast.AST, bool]]]:
+    """Verdict classes under which `node` runs, read off its path conditions on
+    the verdict variable; plus the remaining (non-verdict) conditions."""
+    from ..pat import match
+    from .util import path_conds
+
+    pcs = path_conds(ctx, f, node)
+    pos: Set[str] = set()
+    neg: Set[str] = set()
+    and_self: Optional[bool] = None
+    rest: List[Tuple[ast.AST, bool]] = []
+    unknown: Set[str] = set()
+    for e, pol in pcs:
+        t = norm(e).replace(resv, "res") if resv != "res" else norm(e)
+        cls = None
+        if t == "res":
+            # `if not res:` - the falsy verdict is the atom being false
+            if pol:
+                rest.append((e, pol))
             else:
-                out["skip"] = body
-        else:
-            out[f"?{t}"] = body
-    return out
+                pos.add("falsy")
+            continue
+        if t in ("res in (None, False)", "res in (False, None)", "res is None or res is False", "res is False or res is None"):
+            cls = "falsy"
+        elif t == "res is True":
+            cls = "true"
+        elif t == "isinstance(res, SelectBranch)":
+            cls = "select"
+        elif t == "isinstance(res, StopTraversal)":
+            cls = "stop"
+        elif t == "isinstance(res, SkipBranch)":
+            cls = "skipany"
+        elif t == "res.and_self is False":
+            and_self = pol
+            continue
+        elif t in ("res.and_self", "res.and_self is True"):
+            and_self = not pol
+            continue
+        elif "res" in [x.id for x in ast.walk(e) if isinstance(x, ast.Name)] or (resv in [x.id for x in ast.walk(e) if isinstance(x, ast.Name)]):
+            if pol:
+                unknown.add(t)
+            continue
+        if cls is None:
+            rest.append((e, pol))
+            continue
+        (pos if pol else neg).add(cls)
+    out: Set[str] = set()
+    if "skipany" in pos:
+        out |= {"skip_keep_self"} if and_self is True else ({"skip"} if and_self is False else {"skip_keep_self", "skip"})
+    out |= pos - {"skipany"}
+    out |= {"?" + u for u in unknown}
+    if not pos and not unknown:
+        # only negative knowledge: every verdict class that is not excluded
+        allv = {"falsy", "true", "select", "stop", "skip_keep_self", "skip"}
+        excl = set(neg)
+        if "skipany" in neg:
+            excl |= {"skip_keep_self", "skip"}
+        out = allv - excl
+    return out, rest
 
 
-def _flags_inplace(body: List[ast.stmt], lv: str, N: Dict[str, str]) -> Set[str]:
-    """N: names of the in-place helper: rec (recursive function), keep (the
-    returned flag), acc (the deferred-removal list)."""
-    from ..pat import has, match
+def _filter_table(ctx: Ctx, f: Func, lp: ast.For, kind: str, N: Dict[str, str]) -> Dict[str, Set[str]]:
+    """verdict class -> set of actions the loop body performs for it."""
+    from ..pat import match
 
-    rec, keep, acc = N["rec"], N["keep"], N["acc"]
-    fl: Set[str] = set()
-    for st in body:
-        if match(f"{keep} = True", st) is not None:
-            fl.add("keeps_self")
-        if match(f"{rec}({lv})", st) is not None:
-            fl.add("descends")
-        if isinstance(st, ast.If) and match(f"{rec}({lv})", st.test) is not None:
-            fl.add("descends")
-            if any(match(f"{keep} = True", x) is not None for x in st.body) and any(match(f"{acc}.append({lv})", x) is not None for x in st.orelse):
+    lv = lp.target.id
+    resv = N["res"]
+    table: Dict[str, Set[str]] = {}
+
+    def add(node: ast.AST, flag: str, need_rec: Optional[bool] = None) -> None:
+        vs, rest = _verdicts_of(ctx, f, node, resv)
+        rec_conds = [(pol) for e, pol in rest if match(f"{N['rec']}({lv})", e) is not None]
+        if need_rec is not None:
+            if not rec_conds or rec_conds[0] is not need_rec:
+                return
+        elif rec_conds and flag in ("keeps_self", "drops_self"):
+            return  # handled as keeps_if_descendant
+        for v in vs:
+            table.setdefault(v, set()).add(flag)
+
+    inside = [x for st in lp.body for x in ast.walk(st)]
+    for x in inside:
+        if isinstance(x, ast.Raise):
+            add(x, "stops")
+        if isinstance(x, ast.Call) and match(f"{N['rec']}({lv})", x) is not None:
+            add(x, "descends")
+        if isinstance(x, (ast.Continue, ast.Break, ast.Return)) and kind == "copy":
+            add(x, "BUG:leaves the loop body early")
+    if kind == "inplace":
+        keep, acc = N["keep"], N["acc"]
+        for x in inside:
+            if isinstance(x, ast.Assign) and match(f"{keep} = True", x) is not None:
+                add(x, "keeps_self")
+                add(x, "keeps_if_descendant:keep", need_rec=True)
+            if isinstance(x, ast.Call) and match(f"{acc}.append({lv})", x) is not None:
+                add(x, "drops_self")
+                add(x, "keeps_if_descendant:drop", need_rec=False)
+            if isinstance(x, (ast.Call, ast.AugAssign)) and any(match(p_, x) is not None for p_ in (
+                    f"{acc}.extend({lv}.children)", f"{acc} += {lv}.children", f"{acc}.extend({lv}._children or ())",
+                    f"{acc}.extend({lv}.children.copy())", f"{acc}.extend(list({lv}.children))", f"{acc}.extend({lv}._children)")):
+                add(x, "drops_children")
+            if isinstance(x, ast.Assign) and match(f"{acc} = {lv}.children", x) is not None:
+                add(x, "drops_children")
+                add(x, "BUG:rebinds accumulator")
+            if isinstance(x, ast.For) and x is not lp and any(isinstance(y, ast.Call) and isinstance(y.func, ast.Attribute) and y.func.attr == "remove" for y in ast.walk(x)):
+                add(x, "BUG:removes while iterating the live child list")
+        for v, fl in table.items():
+            if {"keeps_if_descendant:keep", "keeps_if_descendant:drop"} <= fl:
                 fl.add("keeps_if_descendant")
-        if match(f"{acc}.append({lv})", st) is not None:
-            fl.add("drops_self")
-        if any(match(p_, st) is not None for p_ in (f"{acc}.extend({lv}.children)", f"{acc} += {lv}.children", f"{acc}.extend({lv}._children or ())",
-                                                     f"{acc}.extend({lv}.children.copy())", f"{acc}.extend(list({lv}.children))")):
-            fl.add("drops_children")
-        if match(f"{acc} = {lv}.children", st) is not None:
-            fl.add("drops_children")
-            fl.add("BUG:rebinds accumulator")
-        if isinstance(st, ast.For) and any(isinstance(x, ast.Call) and isinstance(x.func, ast.Attribute) and x.func.attr == "remove" for x in ast.walk(st)):
-            fl.add("BUG:removes while iterating the live child list")
-        if isinstance(st, ast.Raise):
-            fl.add("stops")
-    return fl
-
-
-def _flags_copy(body: List[ast.stmt], lv: str, N: Dict[str, str]) -> Set[str]:
-    from ..pat import has, match
-
-    rec, mat = N["rec"], N["materialise"]
-    fl: Set[str] = set()
-    for st in body:
-        if has(f"{mat}()", st):
-            fl.add("keeps_self")
-        if match(f"{rec}({lv})", st) is not None:
-            fl.add("descends")
-        if match(f"$p._add_from({lv})", st) is not None:
-            fl.add("whole_branch")
-        if isinstance(st, ast.Raise):
-            fl.add("stops")
-        if isinstance(st, (ast.Continue, ast.Break, ast.Return)):
-            fl.add("BUG:leaves the loop body early")
-    return fl
+            fl.discard("keeps_if_descendant:keep")
+            fl.discard("keeps_if_descendant:drop")
+    else:
+        mat = N["materialise"]
+        for x in inside:
+            if isinstance(x, ast.Call) and match(f"{mat}()", x) is not None:
+                add(x, "keeps_self")
+            if isinstance(x, ast.Call) and match(f"$$p._add_from({lv})", x) is not None:
+                add(x, "whole_branch")
+    return table
 
 
 @rule("SIB-FILTER", ["C08"], floor=10, section="3.7")
@@ -227,8 +324,6 @@ def sib_filter(ctx: Ctx) -> List[Ob]:
         return lps[0]
 
     li, lc = loop_of(fi), loop_of(fc)
-    bi = _verdict_branches(ctx, fi, li)
-    bc = _verdict_branches(ctx, fc, lc)
     want_inplace = {
         "falsy": {"descends", "keeps_if_descendant"},
         "true": {"descends", "keeps_self"},
@@ -247,32 +342,32 @@ def sib_filter(ctx: Ctx) -> List[Ob]:
     }
     from ..pat import find, one
 
-    acc = one(f"$acc.append({li.target.id})", li)
+    def res_var(f, lp):
+        for st in lp.body:
+            for x in ast.walk(st):
+                if isinstance(x, ast.Assign) and isinstance(x.value, ast.Call) and norm(x.value.func) == "call_predicate" and isinstance(x.targets[0], ast.Name):
+                    return x.targets[0].id
+        raise AnalysisError(f"{f.qualname}: verdict variable (`res = call_predicate(...)`) not found")
+
+    accs = find(f"$acc.append({li.target.id})", li)
     keepv = [n for n in iter_own(fi.node) if isinstance(n, ast.Return) and isinstance(n.value, ast.Name)]
     mats = [g for g in m.func("Node._add_filtered").nested if not g.param_names()]
-    if acc is None and not find(f"$acc.append({li.target.id})", li):
+    if not accs:
         raise AnalysisError("Node.filter._visit: deferred-removal list not recognised")
-    names_i = {"rec": fi.name, "keep": keepv[0].value.id if keepv else "?", "acc": (acc[1]["$acc"] if acc else find(f"$acc.append({li.target.id})", li)[0][1]["$acc"])}
-    names_c = {"rec": fc.name, "materialise": mats[0].name if mats else "?"}
+    names_i = {"rec": fi.name, "keep": keepv[0].value.id if keepv else "?", "acc": accs[0][1]["$acc"], "res": res_var(fi, li)}
+    names_c = {"rec": fc.name, "materialise": mats[0].name if mats else "?", "res": res_var(fc, lc)}
+    ti = _filter_table(ctx, fi, li, "inplace", names_i)
+    tc = _filter_table(ctx, fc, lc, "copy", names_c)
     for v in VERDICTS:
-        for f, br, want, flags, NN in ((fi, bi, want_inplace, _flags_inplace, names_i), (fc, bc, want_copy, _flags_copy, names_c)):
-            lv = (li if f is fi else lc).target.id
-            if v not in br:
-                if v == "skip" and f is fc and "skip_keep_self" in br:
-                    got: Set[str] = set()
-                else:
-                    obs.append(ctx.ob("SIB-FILTER", ["C08"], f, f"verdict {v} is handled", None, False,
-                                      f"no branch for the `{v}` verdict: it is treated like another one"))
-                    continue
-            else:
-                got = flags(br[v], lv, NN)
+        for f, tb, want in ((fi, ti, want_inplace), (fc, tc, want_copy)):
+            got = tb.get(v, set())
             bugs = {x for x in got if x.startswith("BUG:")}
             hard = {x for x in bugs if "rebinds" not in x}
             ok = (got - bugs) == want[v] and not hard
             obs.append(ctx.ob("SIB-FILTER", ["C08"], f, f"verdict {v}: {sorted(want[v]) or ['nothing kept, no descent']}", None, ok,
-                              "" if ok else f"branch does {sorted(got - bugs)}; documented: {sorted(want[v])} "
+                              "" if ok else f"branch does {sorted(got - bugs)}{' ' + str(sorted(hard)) if hard else ''}; documented: {sorted(want[v])} "
                               "(the in-place and the copying form must give the same result as the user-guide table)"))
-    unknown = [k for k in list(bi) + list(bc) if k.startswith("?")]
+    unknown = [k for k in list(ti) + list(tc) if k.startswith("?")]
     obs.append(ctx.ob("SIB-FILTER", ["C08"], fi, "no undocumented verdict case", None, not unknown, "" if not unknown else f"{unknown}"))
     # the predicate is evaluated once per child through the normaliser
     for f, lp in ((fi, li), (fc, lc)):
@@ -324,20 +419,30 @@ def copy_linear(ctx: Ctx) -> List[Ob]:
     idempotent = has(f"{ps}[$i] = (True, $p)", cp.node)
     obs.append(ctx.ob("COPY-LINEAR", ["C08"], cp, "the parent materialiser marks materialised entries (idempotent)", None, idempotent,
                       "" if idempotent else "without the (True, node) overwrite every call re-copies all pending ancestors"))
-    branches = _verdict_branches(ctx, f, lp)
-    for v, body in branches.items():
-        copies = 0
-        sites = []
-        for st in body:
-            for x in ast.walk(st):
-                if isinstance(x, ast.Call):
-                    if match(f"{cp.name}()", x) is not None and pending:
-                        copies += 1
-                        sites.append(f"{cp.name}()")
-                    elif isinstance(x.func, ast.Attribute) and x.func.attr in ("add_child", "add", "append_child") and x.args and norm(x.args[0]) == lv:
-                        copies += 1
-                        sites.append(f".{x.func.attr}({lv})")
-        ok = copies <= 1
+    resv = None
+    for st in lp.body:
+        for x in ast.walk(st):
+            if isinstance(x, ast.Assign) and isinstance(x.value, ast.Call) and norm(x.value.func) == "call_predicate" and isinstance(x.targets[0], ast.Name):
+                resv = x.targets[0].id
+    if resv is None:
+        raise AnalysisError("_add_filtered._visit: verdict variable not found")
+    per: Dict[str, List[str]] = {v: [] for v in VERDICTS}
+    for st in lp.body:
+        for x in ast.walk(st):
+            if not isinstance(x, ast.Call):
+                continue
+            site = None
+            if match(f"{cp.name}()", x) is not None and pending:
+                site = f"{cp.name}()"
+            elif isinstance(x.func, ast.Attribute) and x.func.attr in ("add_child", "add", "append_child") and x.args and norm(x.args[0]) == lv:
+                site = f".{x.func.attr}({lv})"
+            if site is None:
+                continue
+            vs, _rest = _verdicts_of(ctx, f, x, resv)
+            for v in vs:
+                per.setdefault(v, []).append(site)
+    for v, sites in per.items():
+        ok = len(sites) <= 1
         obs.append(ctx.ob("COPY-LINEAR", ["C08", "C07"], f, f"verdict {v}: the visited node is copied at most once", None, ok,
                           "" if ok else f"copies: {' + '.join(sites)}: `{lv}` is already on the pending stack and is materialised by {cp.name}(); "
                           f"`{sites[-1]}` copies it a second time below its own copy: every accepted node appears twice"))
